@@ -142,7 +142,9 @@ def run_group(stage_dir, harnesses, jobs=16, timeout_s=300, stub=False, cbmc_arg
     if solver:
         cmd += ["--solver", solver]
     if playback:
-        cmd += ["-Z", "concrete-playback", "--concrete-playback", playback]
+        # --no-slice-formula: every kani::any() of the harness gets a value in the trace, so the
+        # generated test never runs out of values natively
+        cmd += ["-Z", "concrete-playback", "--concrete-playback", playback, "--no-slice-formula"]
     for h in harnesses:
         cmd += ["--harness", h.fq]
     if cbmc_args:
@@ -184,12 +186,12 @@ def run_group(stage_dir, harnesses, jobs=16, timeout_s=300, stub=False, cbmc_arg
     with open(out_json) as fh:
         rep = json.load(fh)
     err = {e["harness_id"]: e for e in rep.get("error_details", [])}
-    stats = {c["harness_id"]: c.get("cbmc_stats", {}) for c in rep.get("cbmc", [])}
+    stats = {c["harness_id"]: (c.get("cbmc_stats") or {}) for c in rep.get("cbmc", [])}
     res = {}
     by_id = {r["harness_id"]: r for r in rep.get("verification_results", {}).get("results", [])}
     for h in harnesses:
         r = by_id.get(h.fq)
-        e = err.get(h.fq, {})
+        e = err.get(h.fq) or {}
         st = stats.get(h.fq, {})
         d = {"harness": h.name, "fq": h.fq, "wall_s": None, "verdict": "inconclusive",
              "reason": "", "failed": [], "covers_bad": [], "n_checks": 0, "n_ok": 0,
@@ -222,6 +224,9 @@ def run_group(stage_dir, harnesses, jobs=16, timeout_s=300, stub=False, cbmc_arg
             item = {"label": c.get("description", ""), "category": cat, "status": stt,
                     "function": c.get("function", ""),
                     "where": "%s:%s" % (loc.get("file", "?"), loc.get("line", "?"))}
+            if c.get("description", "").startswith("NaN on "):
+                # CBMC's NaN-generation checks: producing a NaN is not a panic in Rust
+                continue
             if cat == "cover":
                 d["n_cover"] += 1
                 if stt == "Satisfied":
